@@ -80,6 +80,8 @@ struct StoreInner {
     storage_reads: Mutex<u64>,
     /// rotating validator schedule: (committee of epoch 0 from block 0, committee of epoch 1, its first block)
     dynamic: Option<(validator::Schedule, validator::Schedule, u64)>,
+    /// ids of blocks that a hostile peer offers at once, whether or not the committee of the epoch they claim is known
+    hostile: Mutex<Vec<u64>>,
 }
 
 #[derive(Clone)]
@@ -195,6 +197,7 @@ fn run_once(ch: &Ch, chn: &Chain, scenario: u32) -> ExecResult {
         release: sync::Semaphore::new(0),
         storage_reads: Mutex::new(0),
         dynamic: None,
+        hostile: Mutex::new(vec![]),
     }));
     let st2 = store.clone();
     let sch = Arc::new(SendCh(ch.clone()));
@@ -393,6 +396,7 @@ fn new_store(genesis: &validator::Genesis) -> Store {
         release: sync::Semaphore::new(0),
         storage_reads: Mutex::new(0),
         dynamic: None,
+        hostile: Mutex::new(vec![]),
     }))
 }
 
@@ -407,6 +411,7 @@ fn new_store_dynamic(genesis: &validator::Genesis, a: &validator::Schedule, b: &
         release: sync::Semaphore::new(0),
         storage_reads: Mutex::new(0),
         dynamic: Some((a.clone(), b.clone(), b_from)),
+        hostile: Mutex::new(vec![]),
     }))
 }
 
@@ -432,8 +437,9 @@ where
             s.spawn_bg(async move {
                 for b in plan {
                     let (n, id) = (b.number().0, block_id(&b));
-                    if st.0.dynamic.is_some() {
-                        // rotating schedule: a block is offered once the committee of the epoch it claims is known
+                    if st.0.dynamic.is_some() && !st.0.hostile.lock().unwrap().contains(&id) {
+                        // rotating schedule: an honest peer offers a block once the committee of the epoch it claims is
+                        // known (a forged block is offered at once: `hostile`)
                         if let validator::Block::FinalV2(f) = &b {
                             if mgr.wait_for_validator_schedule(ctx, f.epoch()).await.is_err() {
                                 return Ok(());
@@ -636,6 +642,7 @@ fn epoch_chain(seed: u64) -> EpochChain {
 
 fn run_epochs(ch: &Ch, ec: &EpochChain) -> ExecResult {
     let store = new_store_dynamic(&ec.genesis, &ec.a, &ec.b, 3);
+    *store.0.hostile.lock().unwrap() = vec![block_id(&ec.forged3_epoch0_by_b), block_id(&ec.forged3_epoch1_by_a)];
     let st2 = store.clone();
     let sch = Arc::new(SendCh(ch.clone()));
     let restart_at: Arc<Mutex<u64>> = Default::default();
@@ -668,12 +675,16 @@ fn run_epochs(ch: &Ch, ec: &EpochChain) -> ExecResult {
             // peer retries later, as the fetch loop does), so both offer everything three times.
             let offer = |forged: bool| -> Vec<validator::Block> {
                 let mut v = vec![];
-                for _ in 0..3 {
-                    if forged {
-                        v.push(ec.forged3_epoch0_by_b.clone());
-                        v.push(ec.forged3_epoch1_by_a.clone());
+                for round in 0..3 {
+                    for i in 0..5 {
+                        // the hostile peer offers its forged blocks again before every block of the first round:
+                        // in particular while the committee of epoch 0 is known and that of epoch 1 is not yet
+                        if forged && (round == 0 || i == 0) {
+                            v.push(ec.forged3_epoch0_by_b.clone());
+                            v.push(ec.forged3_epoch1_by_a.clone());
+                        }
+                        v.push(blk(i));
                     }
-                    v.extend((0..5).map(blk));
                 }
                 v
             };
